@@ -69,7 +69,7 @@ def extra_units():
     u.prop = PROP
     u.name = 'assignReads.bin_increment[-bin, no sliding]'
     out = [u]
-    for v in c11.assign_sliding:
+    for v in c11.assign_sliding + [c11.per_file_lengths]:
         w = copy.copy(v)
         w.prop = PROP
         out.append(w)
